@@ -197,3 +197,15 @@ func specBlkR(blk block) bool     { return blk.header[0]&0x80 != 0 }
 //@ cover [dup]        old(a.haveLast) && blk.header == old(a.lastHeader)
 //@ cover [continued]  zzCalls("fn:deliverFrame") == 1 && old(a.open) && zzCalls("secs1.(*ConnectionMetrics).incPartialTimeoutCount") == 0 && zzCalls("secs1.(*ConnectionMetrics).incBlockNumberMismatchCount") == 0
 //@ cover [restarted]  zzCalls("secs1.(*ConnectionMetrics).incBlockNumberMismatchCount") == 1 && zzCalls("fn:deliverFrame") == 1
+
+// --- C17 inbound: one assembler per generation. The line engine builds its inbound sink exactly once, before
+// its loop; no iteration (in particular not the outbound-send / contention-yield path) creates another, so blocks
+// received while yielding the line and blocks received on the idle line feed the same partial-message state.
+
+//@ func (*transport).lineEngine
+//@ nosafety nil-deref nil-iface
+//@ noframe
+//@ requires t != nil
+//@ emits fn:newSink, chan.send
+//@ loop 1 preserves [nosink] zzCalls("fn:newSink") == 0
+//@ ensures [onesink] zzCalls("fn:newSink") == 1
